@@ -2,6 +2,7 @@ import Uom.Model.Conv
 import Uom.Model.Oracle
 import Uom.Proofs.BodyEq.Conv
 import Uom.Proofs.BodyEq.Storage
+import Uom.Proofs.BodyEq.UnitMac
 /-!
 # C20 — complex storage (known finding F5)
 
@@ -67,5 +68,21 @@ theorem src_get (N : NumTy) (env : Env N) (a : N.S.V) :
       = argV (fromBase N.S env.nCoef env.nConsS (env.bf .U .Dimension) a) := BodyEq.get_eq N env a
 
 end SourceTie
+
+/-! ### tie to the source: what a unit publishes for complex storage (`unit!`, /repo/src/unit.rs, this run) -/
+section SourceTieUnit
+open Uom.Rx Uom.Gen.RxBody Uom.BodyEq.UnitMac
+
+/-- complex storage publishes the declared *real* factor and the declared constant (or the signed zeros):
+    the offset of °C / °F is not lost for complex quantities -/
+theorem src_unit_coefficient_complex {F T R B : Type} (zero : F) (negF : F → F) (d : Decl F) (L : Lib F T R B) :
+    run (envUnit zero negF d L) unit_Conversion_V_for_unit_coefficient_Complex [] = (.val (.host (.f d.factor)), []) :=
+  coefficient_complex zero negF d L
+theorem src_unit_constant_complex {F T R B : Type} (zero : F) (negF : F → F) (d : Decl F) (L : Lib F T R B) (add : Bool) :
+    run (envUnit zero negF d L) unit_Conversion_V_for_unit_constant_Complex [.ctor0 (opCode add)] =
+      (.val (.host (.f (declConst zero negF d add))), []) :=
+  constant_complex zero negF d L add
+
+end SourceTieUnit
 
 end Uom.C20
